@@ -169,6 +169,9 @@ static int encode_special_opd(struct instr *instrc, int m, int i) {
     if (instrc->opd[m].index & REG_RB)
       instrc->hex.rex |= rex_ + rex_x;
     instrc->rd_offset = (instrc->opd[m].reg & VALUE_MASK);
+    // an index register requires the SIB form of the r/m field
+    if (instrc->is_sib)
+      instrc->rd_offset = spl;
     if (instrc->mem_disp)
       instrc->rd_offset |= instrc->mod_disp;
     break;
